@@ -64,6 +64,28 @@ def aux_cases(q):
     return out
 
 
+def big_cases(q, rnd):
+    """Samples of the sizes the statement quantifies over ("1 to several hundred values"): the harness evaluates the
+    declarative definitions of Stats.tla in exact rationals on them. Every size 2..130 (so every size- or
+    degrees-of-freedom-dependent switch of the code in that range has both sides visited, for equal and for lopsided
+    pairs) and some sizes up to 700; shapes rotate (thorough: every shape at every size)."""
+    shapes = ["unit", "int", "wide", "ties"]
+    out = []
+    def add(n1, n2, shape):
+        out.append({"kind": "big", "n1": n1, "n2": n2, "shape": shape, "rep": len(out), "tail": None})
+    sizes = list(range(2, 131)) + [150, 200, 256, 300, 400, 512, 700]
+    for i, n in enumerate(sizes):
+        for j, sh in enumerate(shapes):
+            if q and (i + j) % 2 and n > 40:
+                continue
+            add(n, n, sh)
+            m = rnd.choice([k for k in sizes if k <= 300])
+            add(n, m, sh) if (i + j) % 2 else add(m, n, sh)
+    for n in (1, 2, 3, 31, 101, 102, 103, 300):
+        add(1, n, "unit"); add(n, 1, "int"); add(n, n, "const"); add(n, 2 * n + 1, "const")
+    return out
+
+
 def run(ctx):
     ctx.build()
     q = ctx.quick
@@ -121,8 +143,10 @@ def run(ctx):
                     continue
                 rnd.shuffle(ks)
                 geo.append({"kind": "geoscaled", "xs": ks, "min": min(ks), "max": max(ks), "salt": len(geo)})
-    cases = cases + geo
+    cases = cases + geo + big_cases(q, rnd)
     for c in cases:
+        if c["kind"] == "big":
+            c["tail"] = tail
         c["salt"] = salt_of(c)
     allc = cases + aux
     for i, c in enumerate(allc):
